@@ -457,6 +457,13 @@ def make_file_pair(rng, fmt, workdir, n=None, pos_cls=None):
     refp, estp = os.path.join(workdir, "ref.txt"), os.path.join(workdir, "est.txt")
     if rng.random() < .12:
         refp, estp = os.path.join(workdir, "gt 100%.txt"), os.path.join(workdir, "est_%d (v2).txt")
+    elif rng.random() < .25:
+        # the suffix of a file is the user's business: the sub-command names the format
+        sfx = [".csv", ".tum", ".kitti", "", ".log", ".CSV", ".bag.txt", ".json"]
+        refp = os.path.join(workdir, "ref" + sfx[rng.integers(len(sfx))])
+        estp = os.path.join(workdir, "est" + sfx[rng.integers(len(sfx))])
+        if fmt == "euroc" and rng.random() < .5:
+            estp = os.path.join(workdir, "est.csv")  # (the TUM estimate named like the ground truth)
     if fmt == "tum":
         open(refp, "w").write(rm.write_tum_text(ref["t"], ref["p"], gen.quats_of(ref["R"])))
     elif fmt == "kitti":
